@@ -51,7 +51,9 @@ func (_this *markerObjectBuilder) String() string {
 
 func (_this *markerObjectBuilder) onObjectFinished(ctx *Context, dst reflect.Value) {
 	if !_this.isContainer {
-		ctx.UnstackBuilder()
+		// The marked value may have made the child stack a builder on top of
+		// this one (a node stacks its children builder once it has its value).
+		ctx.RemoveBuilder(_this)
 		ctx.NotifyMarker(_this.id, dst)
 	}
 }
